@@ -498,12 +498,77 @@ func init() {
 		s := args[0].(*Term)
 		return Ite(Eq(s, IntLit(0)), ex.vc.IntConst(0), ex.mapLen(st, mt, s))
 	}
+	// NewIDSet(ids...): a fresh set holding exactly the given ids (known argument count), else a fresh set with an
+	// arbitrary domain.
+	models["github.com/intel/goresctrl/pkg/utils.NewIDSet"] = func(ex *Exec, fr *frame, st *State, reach *Term, args []Value, instr ssa.Instruction) Value {
+		note(ex)
+		mt := mapT(ex, instr)
+		r := ex.freshRef(st, reach, "idset")
+		d, v, l, ks, vs := ex.mapComps(mt)
+		dsort := ArraySort(SInt, ArraySort(ks, SBool))
+		ex.setComp(st, d, Store(ex.comp(st, d, dsort), r, App("(as const "+string(ArraySort(ks, SBool))+")", ArraySort(ks, SBool), TFalse)))
+		lsort := ArraySort(SInt, ex.vc.IntSort())
+		ex.setComp(st, l, Store(ex.comp(st, l, lsort), r, ex.vc.IntConst(0)))
+		vsort := ArraySort(SInt, ArraySort(ks, vs))
+		ex.setComp(st, v, Store(ex.comp(st, v, vsort), r, App("(as const "+string(ArraySort(ks, vs))+")", ArraySort(ks, vs), ex.vc.Zero(mt.Elem()))))
+		if len(args) > 0 {
+			if !known(ex, st, mt, args[0], instr) {
+				havocSet(ex, st, reach, mt, r)
+			} else {
+				for _, id := range ids(ex, st, mt, args[0], instr) {
+					ex.mapStore(st, mt, r, id, ex.vc.Zero(mt.Elem()))
+				}
+			}
+		}
+		return r
+	}
+	// Members(): a fresh slice listing every element of the set exactly once, in no particular order.
+	models[is+"Members"] = func(ex *Exec, fr *frame, st *State, reach *Term, args []Value, instr ssa.Instruction) Value {
+		note(ex)
+		vc := ex.vc
+		mt := mapT(ex, instr)
+		s := args[0].(*Term)
+		it := types.Typ[types.Int]
+		r := ex.freshRef(st, reach, "members")
+		cmp, cs := ex.sliceComp(mt.Key())
+		arr := vc.FreshConst("members.arr", cs.ElemSort())
+		ex.setComp(st, cmp, Store(ex.comp(st, cmp, cs), r, arr))
+		n := vc.Def("members.len", Ite(Eq(s, IntLit(0)), vc.IntConst(0), ex.mapLen(st, mt, s)))
+		vc.Assume(reach, vc.Cmp("<=", vc.IntConst(0), n, it))
+		dom := ex.mapDom(st, mt, s)
+		i, j, k := Sym("i!q", vc.IntSort()), Sym("j!q", vc.IntSort()), Sym("k!q", vc.SortOf(mt.Key()))
+		inb := func(x *Term) *Term { return And(vc.Cmp("<=", vc.IntConst(0), x, it), vc.Cmp("<", x, n, it)) }
+		// every listed id is an element
+		vc.Assume(reach, Forall([]*Term{i}, Implies(inb(i), And(Not(Eq(s, IntLit(0))), Select(dom, Select(arr, i))))))
+		// no duplicates
+		vc.Assume(reach, Forall([]*Term{i, j}, Implies(And(inb(i), inb(j), Not(Eq(i, j))), Not(Eq(Select(arr, i), Select(arr, j))))))
+		// every element is listed (index function)
+		// (the position of an element in the list returned by Members is the specification function
+		// indexin(list, element): an uninterpreted function of the list's backing array and the element)
+		idx := "idset.members.pos"
+		vc.declare(idx, fmt.Sprintf("(declare-fun %s (Int %s) %s)", idx, vc.SortOf(mt.Key()), vc.IntSort()))
+		at := App(idx, vc.IntSort(), r, k)
+		vc.Assume(reach, Forall([]*Term{k}, Implies(And(Not(Eq(s, IntLit(0))), Select(dom, k)), And(inb(at), Eq(Select(arr, at), k)))))
+		return vc.MkSlice(r, vc.IntConst(0), n, n)
+	}
 	mm := func(ex *Exec, ms *modSet, fn *ssa.Function) {
 		mt := types.Unalias(fn.Signature.Recv().Type()).Underlying().(*types.Map)
 		d, vv, l, ks, vs := ex.mapComps(mt)
 		ms.add(d, ArraySort(SInt, ArraySort(ks, SBool)))
 		ms.add(vv, ArraySort(SInt, ArraySort(ks, vs)))
 		ms.add(l, ArraySort(SInt, ex.vc.IntSort()))
+	}
+	modelModsFn[is+"Members"] = func(ex *Exec, ms *modSet, fn *ssa.Function) {
+		mt := types.Unalias(fn.Signature.Recv().Type()).Underlying().(*types.Map)
+		c, s := ex.sliceComp(mt.Key())
+		ms.addFresh(c, s)
+	}
+	modelModsFn["github.com/intel/goresctrl/pkg/utils.NewIDSet"] = func(ex *Exec, ms *modSet, fn *ssa.Function) {
+		mt := types.Unalias(fn.Signature.Results().At(0).Type()).Underlying().(*types.Map)
+		d, vv, l, ks, vs := ex.mapComps(mt)
+		ms.addFresh(d, ArraySort(SInt, ArraySort(ks, SBool)))
+		ms.addFresh(vv, ArraySort(SInt, ArraySort(ks, vs)))
+		ms.addFresh(l, ArraySort(SInt, ex.vc.IntSort()))
 	}
 	modelModsFn[is+"Add"] = mm
 	modelModsFn[is+"Del"] = mm
